@@ -392,6 +392,24 @@ func runUnit(file, unit, filterS, pkg string, attrs map[string]string, smtdir st
 				ob.Status, ob.Answer = "undischarged", "promoted onto the type but not in its contract: "+strings.Join(extra, ", ")
 			}
 			fr.Obligations = append(fr.Obligations, ob)
+			if tc.HasDeclared {
+				decl := map[string]bool{}
+				for _, a := range tc.Declared {
+					decl[a] = true
+				}
+				var more []string
+				for i := 0; i < ms.Len(); i++ {
+					sel := ms.At(i)
+					if len(sel.Index()) == 1 && !decl[sel.Obj().Name()] {
+						more = append(more, sel.Obj().Name())
+					}
+				}
+				ob2 := ObReport{Name: "declared_methods_within_contract", Kind: "types", Status: "discharged", Answer: "unsat", Solver: "go/types"}
+				if len(more) > 0 {
+					ob2.Status, ob2.Answer = "undischarged", "declared on the type but not in its contract: "+strings.Join(more, ", ")
+				}
+				fr.Obligations = append(fr.Obligations, ob2)
+			}
 		}
 		rep.Functions = append(rep.Functions, fr)
 		if text {
